@@ -216,20 +216,25 @@ class HTMLConverter(HTMLScraper, BaseDocumentConverter):
     def _convert_plain(self, link_info):
         base_url = self._base_url
 
-        if link_info.base_link:
-            if self._base_url:
-                base_url = wpull.url.urljoin(
-                    self._base_url, link_info.base_link
-                )
+        try:
+            if link_info.base_link:
+                if self._base_url:
+                    base_url = wpull.url.urljoin(
+                        self._base_url, link_info.base_link
+                    )
+                else:
+                    base_url = link_info.base_link
+
+            if base_url:
+                url = wpull.url.urljoin(base_url, link_info.link)
             else:
-                base_url = link_info.base_link
+                url = link_info.link
 
-        if base_url:
-            url = wpull.url.urljoin(base_url, link_info.link)
-        else:
-            url = link_info.link
+            url_info = URLInfo.parse(url, encoding=self._encoding)
+        except ValueError:
+            # Not a URL: the document keeps the text as it is.
+            return None
 
-        url_info = URLInfo.parse(url, encoding=self._encoding)
         new_url = self._get_new_url(url_info)
 
         return new_url
@@ -310,7 +315,11 @@ class CSSConverter(CSSScraper, BaseDocumentConverter):
 
     def get_new_url(self, url, base_url=None):
         if base_url:
-            url = wpull.url.urljoin(base_url, url)
+            try:
+                url = wpull.url.urljoin(base_url, url)
+            except ValueError:
+                # Not a URL: the document keeps the text as it is.
+                return url
 
         try:
             url_record = self._url_table.get_one(url)
